@@ -43,14 +43,14 @@ ASSUMPTIONS = [
     "unspecified: nonlocal at module scope (inside a module-level let)",
     "unspecified: a let in a class body with a function or class nested inside it (the let variable becomes a class attribute, invisible to nested scopes in Python)",
     "declare-after-use at module scope and no-binding errors may be raised by Hy or by Python's compile(); in function and class scopes declare-after-use must be Hy's own error (property statement)",
-    "reads are written (log i (try v (except [NameError] \"U\"))) so that unbound names are observed instead of ending the run",
+    "reads the model predicts unbound are written (log i (try v (except [NameError] \"U\"))) so that unbound names are observed instead of ending the run",
 ]
 TIME_CAP = {"quick": 900, "thorough": 5400}
 
 POOLS = {1: ("x",), 2: ("x", "y"), 3: ("x", "y", "z")}
 # families: (number of names, depth, with declare-after-use variants)
 BOUNDS = {
-    "quick": dict(families=[(1, 0, True), (1, 1, True), (1, 2, True), (1, 3, True), (2, 1, True), (2, 2, True)], per_shard=700),
+    "quick": dict(families=[(1, 0, True), (1, 1, True), (1, 2, True), (1, 3, True), (2, 1, True), (2, 2, False)], per_shard=700),
     "thorough": dict(families=[(1, 0, True), (1, 1, True), (1, 2, True), (1, 3, True), (1, 4, True), (2, 1, True), (2, 2, True),
                                (2, 3, False), (3, 1, True), (3, 2, False)], per_shard=6000),
 }
@@ -151,7 +151,13 @@ def _tags(kinds, acts):
 def check_case(acc, npool, kinds, acts, use, sample=False):
     pool = POOLS[npool]
     m = N.run_model(pool, kinds, acts, use)
-    text = N.render(pool, kinds, acts, use)
+    if m["error"] and not m["unspecified"]:
+        guard = set()                      # never executed
+    elif m["unspecified"] or m["trace"] is None:
+        guard = set()                      # weak oracle looks at compilation only; a NameError at run time is not judged
+    else:
+        guard = {site for site, v in m["trace"] if v == N.UNBOUND}
+    text = N.render(pool, kinds, acts, use, guard)
     case = {"names": npool, "kinds": kinds, "acts": [list(a) for a in acts], "use": list(use) if use else None, "text": text}
     acc.evaluations += 1
     r = run_impl(text)
